@@ -22,7 +22,6 @@ import (
 	"github.com/atlassian/gostatsd/pkg/web"
 
 	"verifharness/hlib"
-	"verifharness/lexgen"
 )
 
 // httpRunner: one real ingestion router (web.NewHttpServer with ingestion enabled) behind a
@@ -152,7 +151,7 @@ func optBool(ep string, out []byte, ok bool) string {
 }
 
 func (hr *httpRunner) run(in input) hlib.Case {
-	body := []byte(lexgen.FromInts(in.Data))
+	body := []byte(in.Data.str())
 	c := hlib.Case{Input: in}
 	before := hr.dispatched(in.Ep)
 	var status int
